@@ -170,6 +170,8 @@ impl Drop for SlowHandle {
 
 struct ThreadState {
     slow_helpers: Vec<detsim::thread::JoinHandle<()>>,
+    /// how many of them are attach helpers (control operations in flight)
+    attach_helpers: u32,
     tl_guard: [Option<ThreadLocalTestSinkGuard>; 2],
     rt_enter: Option<(u64, tokio::runtime::EnterGuard<'static>)>,
 }
@@ -188,15 +190,40 @@ fn catch<R>(f: impl FnOnce() -> R) -> Result<R, String> {
 }
 
 fn g_ops(plan: &Value, tno: u64, ops: &[Value], log: &GLog, hist: &History, rts: &'static [tokio::runtime::Runtime], ctl: &Arc<detsim::sync::Mutex<Ctl>>) {
-    let mut ts = ThreadState { slow_helpers: vec![], tl_guard: [None, None], rt_enter: None };
+    let mut ts = ThreadState { slow_helpers: vec![], attach_helpers: 0, tl_guard: [None, None], rt_enter: None };
     let _ = plan;
     for op in ops {
         let name = js(op, "op", "").to_string();
         let g = ju(op, "g", 0).min(1);
         let gi = g as usize;
+        // control operations on one global never overlap: before the control thread attaches / detaches / forgets while
+        // a helper of its own is still attaching, the pending slow destructors are let go and the helpers joined
+        if tno == 0 && ts.attach_helpers > 0 && matches!(name.as_str(), "attach" | "detach" | "forget") && !jb(op, "on_helper", false) {
+            let d = format!("slow_finish t0 {}", json!({"op":"slow_finish","g":g,"implicit":true}));
+            log.log(GK::OpBegin { op: d.clone() });
+            for gate in ctl.lock().unwrap().pending_gates.drain(..) {
+                gate.store(true, std::sync::atomic::Ordering::SeqCst);
+            }
+            for h in ts.slow_helpers.drain(..) {
+                let _ = h.join();
+            }
+            ts.attach_helpers = 0;
+            log.log(GK::OpEnd { op: d, outcome: "ok".into() });
+        }
         let desc = format!("{} t{} {}", name, tno, op);
         log.log(GK::OpBegin { op: desc.clone() });
         let outcome: String = match name.as_str() {
+            "attach" if jb(op, "on_helper", false) || (tno == 0 && !jb(op, "inline", false) && !ctl.lock().unwrap().pending_gates.is_empty()) => {
+                // the attach is made by a helper thread (an implementation may make it wait for a detach that is still
+                // in progress); the control thread carries on and joins the helper at `slow_finish` / at its end
+                let mut op2 = op.clone();
+                op2["on_helper"] = json!(false);
+                op2["inline"] = json!(true);
+                let (p2, l2, h2, c2) = (plan.clone(), log.clone(), hist.clone(), ctl.clone());
+                ts.slow_helpers.push(detsim::thread::spawn_named("attach-helper", move || g_ops(&p2, 1_000, &[op2], &l2, &h2, rts, &c2)));
+                ts.attach_helpers += 1;
+                "spawned".into()
+            }
             "attach" => {
                 let dest = ju(op, "dest", 0);
                 let queue = jb(op, "queue", false);
@@ -272,6 +299,7 @@ fn g_ops(plan: &Value, tno: u64, ops: &[Value], log: &GLog, hist: &History, rts:
                 for h in ts.slow_helpers.drain(..) {
                     let _ = h.join();
                 }
+                ts.attach_helpers = 0;
                 "ok".into()
             }
             "detach" => {
@@ -426,6 +454,11 @@ fn runtimes() -> &'static [tokio::runtime::Runtime] {
 }
 
 fn global_main(plan: &Value, log: GLog, hist: History) {
+    // (process-global state: a run must find both globals unattached; a forgotten handle retires the worker)
+    if GlobalA::is_attached() || GlobalB::is_attached() {
+        log.log(GK::Leak { threads: vec!["a global sink was still attached when this run began (left behind by the previous run of this process)".into()] });
+        return;
+    }
     let rts = runtimes();
     let ctl = Arc::new(detsim::sync::Mutex::new(Ctl { slow: [None, None], pending_gates: vec![], attach: [None, None], rt_guard: BTreeMap::new() }));
     let mut hs = vec![];
@@ -559,13 +592,23 @@ pub fn check_c17(plan: &Value, h: &[GEv], hist: &[Ev]) -> Option<Violation> {
         let mut attached_now: Option<u64> = None;
         // the handle that came with the attached sink panics in its destructor
         let mut attached_panics = false;
+        // ... has a slow destructor; and: the destructor of a detached sink's handle is still running
+        let mut attached_slow = false;
+        let mut slow_in_flight = false;
         let mut rt_now: BTreeMap<u64, Option<u64>> = BTreeMap::new();
         let mut forgotten = false;
         for op in ops.iter().filter(|o| ju(&o.spec, "g", 0).min(1) == g || o.name == "final_detach") {
             match op.name.as_str() {
+                "attach" if op.outcome == "spawned" => {}
+                "slow_finish" => slow_in_flight = false,
                 "attach" => {
                     let expect_panic = attached_now.is_some();
                     let panicked = op.outcome.starts_with("panic:");
+                    if panicked && !expect_panic && slow_in_flight && op.outcome.contains("Already installed") {
+                        // the previous sink's handle is still being dropped (its destructor has not returned): an
+                        // implementation may regard the global as attached until then - refused, nothing changes
+                        continue;
+                    }
                     if expect_panic != panicked {
                         return Some(Violation::new("attach_panic_mismatch", format!("attach (global {g}) while attached={attached_now:?}: outcome {}", op.outcome)));
                     }
@@ -576,6 +619,7 @@ pub fn check_c17(plan: &Value, h: &[GEv], hist: &[Ev]) -> Option<Violation> {
                         attached_now = Some(ju(&op.spec, "dest", 0));
                         attached_changes.push((op.inv, op.ret, attached_now));
                         attached_panics = js(&op.spec, "handle", "") == "panic" && !jb(&op.spec, "queue", false);
+                        attached_slow = js(&op.spec, "handle", "") == "slow" && !jb(&op.spec, "queue", false);
                     }
                 }
                 "detach" => {
@@ -587,6 +631,8 @@ pub fn check_c17(plan: &Value, h: &[GEv], hist: &[Ev]) -> Option<Violation> {
                         return Some(Violation::new("detach_never_reached_the_handle", format!("the attach handle (global {g}) was dropped on a helper thread, but the destructor of the handle that came with the sink had not begun after 1 s")));
                     }
                     if op.outcome == "ok" || expected_panic {
+                        slow_in_flight = attached_slow;
+                        attached_slow = false;
                         attached_panics = false;
                         attached_now = None;
                         attached_changes.push((op.inv, op.ret, None));
@@ -822,7 +868,7 @@ pub fn gen_c17(rng: &mut Rng) -> Value {
             ops.push(json!({"op":"attach","g":g,"dest":d1,"queue":false,"stream":false,"strict":false,"emitting_handle":false,"handle":"slow"}));
             ops.push(json!({"op":"append","g":g,"id":next_id,"how":"try"}));
             ops.push(json!({"op":"detach","g":g,"in_panic":false}));
-            ops.push(json!({"op":"attach","g":g,"dest":d2,"queue": (peek / 12) % 3 == 0,"stream":false,"strict":false,"emitting_handle":false,"handle":"plain"}));
+            ops.push(json!({"op":"attach","g":g,"dest":d2,"queue": (peek / 12) % 3 == 0,"stream":false,"strict":false,"emitting_handle":false,"handle":"plain","on_helper": (peek / 108) % 2 == 0,"inline": (peek / 108) % 2 == 1}));
             ops.push(json!({"op":"append","g":g,"id":next_id + 1,"how":"try"}));
             ops.push(json!({"op":"slow_finish","g":g}));
             ops.push(json!({"op":"append","g":g,"id":next_id + 2,"how": *["try", "append", "sink"].get((peek / 36 % 3) as usize).unwrap()}));
